@@ -55,9 +55,10 @@ class IterSource(Observable):
     """Logged wrapper around the LIBRARY's from_iterable (a synchronous burst on the subscription's scheduler,
     cancellable only through from_iterable's own `disposed` polling). term: "C", "E" or None (never ends)."""
 
-    def __init__(self, lab: Lab, name: str, values: list, term: str | None) -> None:
+    def __init__(self, lab: Lab, name: str, values: list, term: str | None, pull: Any = None) -> None:
         super().__init__()
         self.lab, self.name, self.values, self.term = lab, name, list(values), term
+        self.pull = pull      # called before every element is handed out: pulling a user's iterator is running user code
         self.kind, self.nonconf = "iter", False
         self.msgs = [(0, "N", v) for v in values] + ([(0, term, SrcErr("iter") if term == "E" else None)] if term else [])
         self.nsub = 0
@@ -68,7 +69,7 @@ class IterSource(Observable):
         self.nsub += 1
         lab, name = self.lab, self.name
         lab.add("sub", name, sid)
-        body: Observable = rx.from_iterable(self.values)
+        body: Observable = rx.from_iterable(_Pulled(self.values, self.pull) if self.pull is not None else self.values)
         if self.term == "E":
             body = body.pipe(ops.concat(rx.throw(self.msgs[-1][2])))
         elif self.term is None:
@@ -78,6 +79,16 @@ class IterSource(Observable):
                                        lambda: lab.add("emit", name, sid, "C", None)))
         inner = body.subscribe(observer, scheduler=scheduler)
         return CompositeDisposable(inner, Disposable(lambda: lab.add("unsub", name, sid)))
+
+
+class _Pulled:
+    def __init__(self, values: list, pull: Any) -> None:
+        self.values, self.pull = values, pull
+
+    def __iter__(self) -> Any:
+        for v in self.values:
+            self.pull()
+            yield v
 
 
 class Gen:
@@ -115,7 +126,10 @@ class Gen:
         msgs = gen_timeline(r, self.domain, maxlen=self.maxlen, start=start, term=term, nonconf=nonconf)
         if kind == "iter":
             term_kind = next((k for (_, k, _) in msgs if k in "EC"), None)
-            src: Any = IterSource(self.lab, name, [v for (_, k, v) in msgs if k == "N"], term_kind)
+            pull = self.lab.fn("%s.iterator_next" % name, lambda: None)
+            pull.stage, pull.role, pull.opname = -1, "iterator_next", "from_iterable"   # type: ignore[attr-defined]
+            self.callbacks.append(pull)
+            src: Any = IterSource(self.lab, name, [v for (_, k, v) in msgs if k == "N"], term_kind, pull)
         elif kind == "cold":
             src = self.lab.cold(name, msgs, nonconf=nonconf)
         elif kind == "hot":
